@@ -240,6 +240,10 @@ PROPS["C20"] = {
     "assumptions": [
         "I10: history entries are non-blank (lines the editor itself could have stored)",
         "usize overflow of the cursor (a line of 2^64 characters) is not modelled",
+    ],
+}
+
+
 # ---------------------------------------------------------------- C14
 def _c14_unhex(h):
     if h in ("-", "N"):
